@@ -117,6 +117,8 @@ pub fn library() -> Vec<Decl> {
         Decl { name: "LPair", params: 2, codata: true, xtors: vec![("lfst", vec![], Some(P(0))), ("lsnd", vec![], Some(P(1)))] },
         // a data type whose first constructor has arguments and whose second has none
         Decl { name: "Res", params: 1, codata: false, xtors: vec![("Ok", vec![P(0)], None), ("Err", vec![], None), ("Warn", vec![P(0), I], None)] },
+        // a type whose name differs from another one in case only
+        Decl { name: "COLOR", params: 0, codata: false, xtors: vec![("RED", vec![], None), ("GREEN", vec![I], None)] },
         // six constructors (jump table with more than four entries)
         Decl { name: "Six", params: 0, codata: false, xtors: vec![("S0", vec![], None), ("S1", vec![I], None), ("S2", vec![], None), ("S3", vec![I, I], None), ("S4", vec![], None), ("S5", vec![D("List", vec![I])], None)] },
         // a codata type whose destructor takes a value of the type itself (`f.app(f, n)`)
